@@ -306,6 +306,27 @@ impl<P: Package, VS: VersionSet, M: Eq + Clone + Debug + Display> Incompatibilit
     }
 }
 
+#[cfg(pubgrub_verif)]
+impl<P: Package, VS: VersionSet, M: Eq + Clone + Debug + Display> Incompatibility<P, VS, M> {
+    /// Verification hook: canonical one-line text of this incompatibility (kind;terms sorted).
+    pub(crate) fn verif_snapshot(&self) -> String {
+        let kind = match &self.kind {
+            Kind::NotRoot(p, v) => format!("notroot({} {})", p, v),
+            Kind::NoVersions(p, s) => format!("novers({} {})", p, s),
+            Kind::FromDependencyOf(p, s, q, t) => format!("dep({} {} {} {})", p, s, q, t),
+            Kind::DerivedFrom(a, b) => format!("derived({} {})", a.into_raw(), b.into_raw()),
+            Kind::Custom(p, s, m) => format!("custom({} {} {})", p, s, m),
+        };
+        let mut terms: Vec<String> = self
+            .package_terms
+            .iter()
+            .map(|(p, t)| format!("{} {}", p, t))
+            .collect();
+        terms.sort();
+        format!("{};{}", kind, terms.join(";"))
+    }
+}
+
 impl<'a, P: Package, VS: VersionSet + 'a, M: Eq + Clone + Debug + Display + 'a>
     Incompatibility<P, VS, M>
 {
